@@ -39,7 +39,9 @@ Tree == In.trees[ti]
 N(i) == Tree.nodes[i]
 Prog(i) == LET p == N(i).prog IN [short |-> p.short, long |-> p.long, flags |-> SeqToSet(p.flags)]
 
-Init == /\ ti \in DOMAIN In.trees /\ policy \in SeqToSet(In.policies) /\ argv \in SeqsUpTo(In.maxlen)
+\* argument vectors: every vector over the alphabet up to maxlen, or (trees with an explicit list: deep trees) the listed ones
+Argvs(t) == IF Len(In.trees[t].vectors) > 0 THEN SeqToSet(In.trees[t].vectors) ELSE SeqsUpTo(In.maxlen)
+Init == /\ ti \in DOMAIN In.trees /\ policy \in SeqToSet(In.policies) /\ argv \in Argvs(ti)
         /\ node = 1 /\ rest = argv /\ helpMode = FALSE /\ levels = <<>> /\ outcome = <<>> /\ emitted = FALSE
 
 Running == outcome = <<>>
